@@ -1,7 +1,8 @@
 (* C01 — every doer runs a well-formed lifecycle on every exit path.
    Model: Model/Sched.v (Doist/Doer/DoDoer of src/hio/base/doing.py as a fuelled
    interpreter over doer programs).  Proofs: Proofs/SchedFrame.v, SchedLife.v, SchedTop.v. *)
-From Hio Require Import Base.Prelude Base.AMap Base.Time Model.Sched Proofs.SchedLife Proofs.SchedTop.
+From Hio Require Import Base.Prelude Base.AMap Base.Time Model.Sched Proofs.SchedLife Proofs.SchedTop
+  Proofs.SchedDequeHold Proofs.SchedDequeTop.
 
 (* For every time type, every program (any forest of leaf doers of the three
    kinds and DoDoers, any scripts of yields / returns / raises / KeyboardInterrupts,
@@ -35,11 +36,35 @@ Proof.
 Qed.
 Print Assumptions C01_preserved_by_operations.
 
-(* NOT PROVED (checked on the implementation by the oracle of every run, and on
-   the model by the correspondence): completeness — when do_run ends without
-   running out of budget, no doer is left suspended, i.e. every started doer has
-   exited before DoReturn/DoRaise.  It needs the second invariant of DESIGN §6
-   (every suspended doer is held by exactly one reachable deque). *)
+(* Completeness: when do() returns or raises, every doer that was started has
+   exited — for every program of the static class W (id 0 is only the root;
+   extend() targets are the root or DoDoers; no remove() among the effects of a
+   doer's enter step) and every run that did not exhaust its budget: no generator
+   is left suspended or executing, every doer's events are complete lifecycles,
+   and the last event of the trace is DoReturn/DoRaise.
+   FULL STATEMENT (without W) is false of the code: finding D43, refuted below. *)
+Theorem C01_complete_partial :
+  forall (T : Type) (TT : Time T) (cycles fuel : nat) (p : prog T),
+    W (p_defs p) -> oof (do_run cycles fuel p) = false ->
+    (forall j, get_gen (do_run cycles fuel p) j = GNew \/ get_gen (do_run cycles fuel p) j = GDone) /\
+    (forall j, lives (events j (do_run cycles fuel p))) /\
+    exists k t rest, trace (do_run cycles fuel p) = {| e_kind := k; e_id := 0%N; e_tyme := t |} :: rest /\
+                     (k = DoReturn \/ k = DoRaise).
+Proof.
+  intros T TT cycles fuel p Hw O. split.
+  - now apply do_run_complete.
+  - now apply do_run_all_exited.
+Qed.
+Print Assumptions C01_complete_partial.
+
+(* D43: a doer extended into a DoDoer whose enter step removes that DoDoer
+   stays suspended for good: entered, never exited. *)
+Theorem C01_complete_refuted :
+  exists (p : prog Z) cycles fuel j pc,
+    oof (do_run cycles fuel p) = false /\ get_gen (do_run cycles fuel p) j = GSusp pc /\
+    events j (do_run cycles fuel p) = [Enter].
+Proof. exact do_run_complete_refuted. Qed.
+Print Assumptions C01_complete_refuted.
 
 (* Non-vacuity: a forest with a nested DoDoer, a raise in the middle of a pass
    and doers alive on both sides of it. *)
